@@ -551,6 +551,11 @@ func execCase(ops []string) (out []string) {
 				p := mkPoint(m, atoi(t[3]))
 				// the group ID is the implementation's (models.ToGroupID is the subject of C06): an oracle value on the op line
 				line = stripKey(line, "grp") + " grp=" + kit.Esc(string(p.GroupID()))
+				if len(r.jcfg.on) > 0 {
+					// the general group ID (by the on() dimensions) is an oracle value too
+					gg := models.ToGroupID(p.Name(), p.GroupInfo().Tags, models.Dimensions{ByName: p.Dimensions().ByName, TagNames: r.jcfg.on})
+					line = stripKey(line, "ggrp") + " ggrp=" + kit.Esc(string(gg))
+				}
 				guard(line, func() string {
 					ms, err := r.jn.Point(int(atoi(t[2])), p)
 					return r.joinOut(ms, err, false)
